@@ -11,6 +11,7 @@ import (
 	"reflect"
 	"sort"
 	"strings"
+	"time"
 
 	kubeapps "k8s.io/api/apps/v1"
 	v1 "k8s.io/api/core/v1"
@@ -19,14 +20,17 @@ import (
 	"k8s.io/apimachinery/pkg/runtime"
 	"k8s.io/apimachinery/pkg/runtime/schema"
 	kubeinformers "k8s.io/client-go/informers"
+	coreinformers "k8s.io/client-go/informers/core/v1"
 	kubefake "k8s.io/client-go/kubernetes/fake"
 	clienttesting "k8s.io/client-go/testing"
 	"k8s.io/client-go/tools/cache"
+	"k8s.io/client-go/util/workqueue"
 	"k8s.io/klog/v2"
 
 	apps "github.com/pingcap/advanced-statefulset/client/apis/apps/v1"
 	asfake "github.com/pingcap/advanced-statefulset/client/client/clientset/versioned/fake"
 	asinformers "github.com/pingcap/advanced-statefulset/client/client/informers/externalversions"
+	appsinformers "github.com/pingcap/advanced-statefulset/client/client/informers/externalversions/apps/v1"
 	"github.com/pingcap/advanced-statefulset/pkg/controller/statefulset"
 )
 
@@ -59,6 +63,11 @@ type Op struct {
 	Faults []Fault `json:"faults,omitempty"`
 	// RefreshOnConflict: the set informer catches up between the attempts of a status write
 	RefreshOnConflict bool     `json:"refresh_on_conflict,omitempty"`
+	// Notify (refresh): deliver the informer events of what changed in the cache to the handlers the controller registered
+	Notify bool `json:"notify,omitempty"`
+	// On (outage): every API call of a reconcile fails with an internal error while the outage is on
+	On bool `json:"on,omitempty"`
+	// Max (drain): at most this many work items
 	What              string   `json:"what,omitempty"`  // refresh: all|set|pods|claims
 	Only              []string `json:"only,omitempty"`  // refresh pods: only these names
 	Pod               string   `json:"pod,omitempty"`   // kubelet
@@ -66,6 +75,7 @@ type Op struct {
 	Field             string   `json:"field,omitempty"` // edit: replicas|slots|pause|tmpl|partition|delete|policy|strategy
 	Int               *int64   `json:"int,omitempty"`
 	Str               *string  `json:"str,omitempty"`
+	Max               int      `json:"max,omitempty"`
 }
 
 type Scenario struct {
@@ -74,6 +84,8 @@ type Scenario struct {
 	Ops   []Op   `json:"ops"`
 	Dump  bool   `json:"dump"`
 	Tmpls []int  `json:"tmpls"` // template ids for the hash table
+	// FastQueue: the controller's work queue is replaced by one of the same type with a backoff of 20us * 2^n capped at 1ms
+	FastQueue bool `json:"fast_queue,omitempty"`
 }
 
 type Call struct {
@@ -111,7 +123,42 @@ type env struct {
 	record            bool
 	inReact           bool
 	refreshOnConflict bool
+	events            int
+	podCap            *capShared
+	setCap            *capShared
+	outage            bool
 }
+
+// ---- informer wrappers that remember the handlers the controller registers (event-driven histories)
+
+type capShared struct {
+	cache.SharedIndexInformer
+	handlers []cache.ResourceEventHandler
+}
+
+func (c *capShared) AddEventHandler(h cache.ResourceEventHandler) (cache.ResourceEventHandlerRegistration, error) {
+	c.handlers = append(c.handlers, h)
+	return c.SharedIndexInformer.AddEventHandler(h)
+}
+
+func (c *capShared) AddEventHandlerWithResyncPeriod(h cache.ResourceEventHandler, d time.Duration) (cache.ResourceEventHandlerRegistration, error) {
+	c.handlers = append(c.handlers, h)
+	return c.SharedIndexInformer.AddEventHandlerWithResyncPeriod(h, d)
+}
+
+type capPodInformer struct {
+	coreinformers.PodInformer
+	inf *capShared
+}
+
+func (c capPodInformer) Informer() cache.SharedIndexInformer { return c.inf }
+
+type capSetInformer struct {
+	appsinformers.StatefulSetInformer
+	inf *capShared
+}
+
+func (c capSetInformer) Informer() cache.SharedIndexInformer { return c.inf }
 
 var (
 	podGVR = schema.GroupVersionResource{Version: "v1", Resource: "pods"}
@@ -336,7 +383,13 @@ func (e *env) react(a clienttesting.Action, tracker clienttesting.ObjectTracker)
 	e.n++
 	c := e.abstract(a)
 	kind, faulty := "", false
+	if e.outage {
+		kind, faulty = "500", true
+	}
 	for i, f := range e.faults {
+		if faulty {
+			break
+		}
 		if (f.At != nil && *f.At == idx) || (f.At == nil && f.On == shape(&c)) {
 			kind, faulty = f.Kind, true
 			e.faults = append(append([]Fault{}, e.faults[:i]...), e.faults[i+1:]...)
@@ -466,9 +519,18 @@ func newEnv(sc *Scenario) *env {
 	e.as.PrependReactor("*", "*", func(a clienttesting.Action) (bool, runtime.Object, error) { return e.react(a, e.as.Tracker()) })
 	e.kinf = kubeinformers.NewSharedInformerFactory(e.kube, 0)
 	e.ainf = asinformers.NewSharedInformerFactory(e.as, 0)
+	podsInf := e.kinf.Core().V1().Pods()
+	setsInf := e.ainf.Apps().V1().StatefulSets()
+	e.podCap = &capShared{SharedIndexInformer: podsInf.Informer()}
+	e.setCap = &capShared{SharedIndexInformer: setsInf.Informer()}
 	e.ctrl = statefulset.NewStatefulSetController(
-		e.kinf.Core().V1().Pods(), e.ainf.Apps().V1().StatefulSets(), e.kinf.Core().V1().PersistentVolumeClaims(),
+		capPodInformer{PodInformer: podsInf, inf: e.podCap}, capSetInformer{StatefulSetInformer: setsInf, inf: e.setCap},
+		e.kinf.Core().V1().PersistentVolumeClaims(),
 		e.kinf.Apps().V1().ControllerRevisions(), e.kube, e.as)
+	if sc.FastQueue {
+		e.ctrl.VerifSetQueue(workqueue.NewNamedRateLimitingQueue(
+			workqueue.NewItemExponentialFailureRateLimiter(20*time.Microsecond, time.Millisecond), "statefulset-fast"))
+	}
 	// caches
 	if sc.Cache.Set != nil {
 		e.setIndexer().Add(sc.Cache.Set.object())
@@ -647,12 +709,35 @@ func (e *env) refresh(op Op) {
 		what = "all"
 	}
 	if what == "all" || what == "set" {
+		var old *apps.StatefulSet
+		for _, o := range e.setIndexer().List() {
+			if o.(*apps.StatefulSet).Name == e.base.Name {
+				old = o.(*apps.StatefulSet)
+			}
+		}
 		if s := e.apiSet(); s != nil {
 			e.setIndexer().Update(s)
+			if op.Notify {
+				for _, h := range e.setCap.handlers {
+					if old == nil {
+						h.OnAdd(s, false)
+						e.events++
+					} else if old.ResourceVersion != s.ResourceVersion || !reflect.DeepEqual(old, s) {
+						h.OnUpdate(old, s)
+						e.events++
+					}
+				}
+			}
 		} else {
 			for _, o := range e.setIndexer().List() {
 				if o.(*apps.StatefulSet).Name == e.base.Name {
 					e.setIndexer().Delete(o)
+				}
+			}
+			if op.Notify && old != nil {
+				for _, h := range e.setCap.handlers {
+					h.OnDelete(old)
+					e.events++
 				}
 			}
 		}
@@ -669,21 +754,50 @@ func (e *env) refresh(op Op) {
 				live[pl.Items[i].Name] = pl.Items[i].DeepCopy()
 			}
 		}
+		olds := map[string]*v1.Pod{}
 		for _, o := range e.podIndexer().List() {
 			p := o.(*v1.Pod)
+			olds[p.Name] = p
 			if len(only) > 0 && !only[p.Name] {
 				continue
 			}
 			if _, ok := live[p.Name]; !ok {
 				e.podIndexer().Delete(o)
+				if op.Notify {
+					for _, h := range e.podCap.handlers {
+						h.OnDelete(p)
+						e.events++
+					}
+				}
 			}
 		}
-		for n, p := range live {
+		names := []string{}
+		for n := range live {
+			names = append(names, n)
+		}
+		sort.Strings(names)
+		for _, n := range names {
+			p := live[n]
 			if len(only) > 0 && !only[n] {
 				continue
 			}
 			p.TypeMeta = metav1.TypeMeta{Kind: "Pod", APIVersion: "v1"}
 			e.podIndexer().Update(p)
+			if op.Notify {
+				old := olds[n]
+				for _, h := range e.podCap.handlers {
+					if old == nil {
+						h.OnAdd(p, false)
+						e.events++
+					} else if !reflect.DeepEqual(old, p) {
+						// the fake tracker does not bump resourceVersion on status changes: give the event one
+						q := p.DeepCopy()
+						q.ResourceVersion = old.ResourceVersion + "x"
+						h.OnUpdate(old, q)
+						e.events++
+					}
+				}
+			}
 		}
 	}
 	if what == "all" || what == "claims" {
@@ -820,8 +934,55 @@ func init() {
 			case "worker":
 				steps = append(steps, e.reconcile(op.Faults, true))
 			case "refresh":
+				e.events = 0
 				e.refresh(op)
-				steps = append(steps, map[string]string{"refresh": "ok"})
+				steps = append(steps, map[string]interface{}{"refresh": "ok", "events": e.events, "queue_len": e.ctrl.VerifQueue().Len()})
+			case "outage":
+				e.outage = op.On
+				steps = append(steps, map[string]interface{}{"outage": op.On})
+			case "drain":
+				// the worker: real processNextWorkItem on whatever the event handlers and the retries queued
+				max := op.Max
+				if max == 0 {
+					max = 12
+				}
+				key := ns + "/" + e.base.Name
+				q := e.ctrl.VerifQueue()
+				works := []ReconcileObs{}
+				for i := 0; i < max; i++ {
+					if q.Len() == 0 && q.NumRequeues(key) > 0 {
+						// a retry is scheduled: wait for the backoff (fast queue: at most 1ms)
+						for w := 0; w < 400 && q.Len() == 0; w++ {
+							time.Sleep(50 * time.Microsecond)
+						}
+					}
+					if q.Len() == 0 {
+						break
+					}
+					e.log, e.n, e.faults = nil, 0, nil
+					before := q.NumRequeues(key)
+					e.record = true
+					obs := ReconcileObs{Result: "ok"}
+					func() {
+						defer func() {
+							if r := recover(); r != nil {
+								obs.Result, obs.Msg = "panic", fmt.Sprint(r)
+							}
+						}()
+						e.ctrl.VerifProcessNext()
+					}()
+					e.record = false
+					obs.Requeues = q.NumRequeues(key)
+					if obs.Result == "ok" && obs.Requeues > before {
+						obs.Result = "err"
+					}
+					obs.Calls = e.log
+					if obs.Calls == nil {
+						obs.Calls = []Call{}
+					}
+					works = append(works, obs)
+				}
+				steps = append(steps, map[string]interface{}{"drain": works, "queue_len": q.Len(), "requeues": q.NumRequeues(key)})
 			case "kubelet":
 				steps = append(steps, map[string]string{"kubelet": e.kubelet(op)})
 			case "edit":
